@@ -704,4 +704,14 @@ def rule_builders_fresh(ctx):
     rb(ctx, 'C05.h')
 
 
-RULES = [('C06.a', rule_a), ('C06.b', rule_b), ('C06.c', rule_c), ('C06.a', rule_g), ('C06.d', rule_e), ('C06.e+C20.g+C20.i+C20.k', rule_f), ('C07.e', rule_genpub), ('C05.a+C05.b+C14.f+C03.c', rule_d), ('C05.h', rule_builders_fresh)]
+
+def rule_dispatch_awaited(ctx):
+    """(shared C01.e)  Credit that follows its request on the wire finds the stream registered: the receive loop awaits
+    the handler of a request frame - which registers the responder - before it takes the next frame, so a REQUEST_N
+    sent right after REQUEST_STREAM / REQUEST_CHANNEL is not dropped as a frame of an unknown stream
+    (rules/dispatch.py)."""
+    from . import dispatch
+    dispatch.rule_lookup(ctx, 'C01.e')
+
+
+RULES = [('C06.a', rule_a), ('C06.b', rule_b), ('C06.c', rule_c), ('C06.a', rule_g), ('C06.d', rule_e), ('C06.e+C20.g+C20.i+C20.k', rule_f), ('C07.e', rule_genpub), ('C05.a+C05.b+C14.f+C03.c', rule_d), ('C05.h', rule_builders_fresh), ('C01.e', rule_dispatch_awaited)]
